@@ -34,7 +34,8 @@ SEC_REASONS = {12, 13, 14, 15, 16}
 MALFORMATIONS = ['none', 'wrong-kid', 'bad-tag', 'unknown-ctx', 'target-missing', 'dup-param', 'dup-result-id', 'two-results',
                  'zero-results', 'fewer-results', 'params-flag-clear', 'no-params-default-scope', 'addl-dup-keys',
                  'addl-undecodable', 'crit-header', 'result-not-array', 'result-garbage', 'wrong-tag-kind', 'unknown-tag',
-                 'asb-garbage', 'asb-empty', 'addl-protected-ok', 'alter-target-0', 'alter-target-1', 'attached-payload']
+                 'asb-garbage', 'asb-empty', 'addl-protected-ok', 'alter-target-0', 'alter-target-1', 'attached-payload',
+                 'surplus-result']
 BLOCKS = ['bib-payload', 'bib-ext', 'bcb-payload', 'bib-multi', 'bib-multi-r', 'bcb-multi', 'bcb-multi-r']
 # a BIB on the payload with a BCB layered over it: the BCB covers the payload only, or (as RFC 9172 asks of a source
 # whose BIB and BCB share a target) the payload and the BIB
@@ -155,6 +156,10 @@ def malform(bundle, sec_type, mal):
         asb['results'][0] = [asb['results'][0][0], [rid + 1, enc]]
     elif mal == 'zero-results':
         asb['results'][0] = []
+    elif mal == 'surplus-result':
+        # one result list more than there are targets (RFC 9172 3.6: one per target, in the same order), holding an
+        # undecodable COSE message
+        asb['results'] = list(asb['results']) + [[[rid, b'\xff\x00\x01']]]
     elif mal == 'fewer-results':
         asb['targets'] = list(asb['targets']) + [2 if 2 not in asb['targets'] else 1]
     elif mal == 'params-flag-clear':
